@@ -17,7 +17,10 @@ RULE = ("seeded generator of box collections (0..400 boxes: integer lattice - bo
         "(collection, query) pair; distinct by (collection, query); non-trivial when the collection "
         "has >= 2 boxes")
 ASSUMPTIONS = ["boxes satisfy min <= max on both axes and have finite coordinates",
-               "brute force uses the same float comparisons (closed intervals): no tolerance involved"]
+               "brute force uses the same float comparisons (closed intervals): no tolerance involved",
+               "trees are at most 400 levels deep (geometric-progression class); the interpreter's recursion "
+               "budget is widened to 6000 frames in the monitoring process only to make room for the contract "
+               "wrappers' own frames"]
 NODE_CAP = 300_000
 
 
@@ -113,7 +116,31 @@ def gen_boxes(rng):
     c = rng.random()
     n = rng.choice((0, 1, 2, 3, 4, 5, 8, 13, rng.randint(6, 60), rng.randint(20, 400)))
     boxes = []
-    if c < 0.04:
+    if c < 0.012:
+        # coordinates in geometric progression: the mean centre is dominated by the largest box, so
+        # every level of the tree peels off one box and the tree is as deep as the collection is long
+        # (hundreds of levels) - depth caps, level-bounded walks and recursion budgets live here
+        cls = "geometric progression (tree hundreds of levels deep)"
+        n = rng.choice((150, 201, 202, 230, 260, 300, 400))
+        style = rng.randrange(4)
+        from fractions import Fraction
+        for k in range(n):
+            if style == 0:
+                v = 2.0 ** (min(8 * k, 2000) - 1000)
+            elif style == 1:
+                v = -(2.0 ** (min(8 * k, 2000) - 1000))
+            elif style == 2:
+                v = Fraction(1000) ** k
+            else:
+                v = float(3 ** min(k, 600)) if k < 600 else 3.0 ** 600
+            if rng.random() < 0.5:
+                boxes.append((v, v, v, v))
+            else:
+                lo, hi = (v, v + abs(v) / 4) if v >= 0 else (v - abs(v) / 4, v)
+                boxes.append((lo, lo, hi, hi))
+        if style == 3:
+            boxes = boxes[:400]
+    elif c < 0.04:
         # finite but extreme coordinates: sums of two coordinates overflow, both signs present,
         # mixed with ordinary and sub-normal boxes
         cls = "extreme magnitudes (sums overflow)"
@@ -365,8 +392,15 @@ def two_live_indexes(ctx, mon, rng):
 
 
 def run(ctx):
+    from .. import wtests
+    wtests.run(ctx)
+    import sys
     mon = install(ctx)
     rng = ctx.rng
+    # the contract wrappers add about three interpreter frames per tree level; the deepest trees
+    # generated here (400 levels) fit the interpreter's default budget of 1000 frames on their own
+    # but not with the wrappers in between, so the budget is widened by that factor for this process
+    sys.setrecursionlimit(max(sys.getrecursionlimit(), 6000))
     for _ in range(ctx.budget(1_500, 20_000)):
         two_live_indexes(ctx, mon, rng)
     ctx.need("history: two live indexes queried alternately", 3000)
@@ -375,6 +409,9 @@ def run(ctx):
     for i in range(n):
         if not ctx.alive():
             break
+        if rng.random() < 0.03:
+            from .. import noise
+            noise.burst(ctx, rng, exclude=('rtree',))
         if rng.random() < 0.01:
             from plotink import rtree as _rt
             for bad in (None, [(1, (0, 0))], [(1, None)], 5, [("a", (0, 0, "x", 1))]):
@@ -391,7 +428,8 @@ def run(ctx):
         one_tree(ctx, mon, cls, boxes, queries)
     ctx.extra["max_nodes_in_one_tree"] = [ctx.extra.get("max_nodes_in_one_tree", 0)]
     for cls in ("coordinates given as Fraction / Decimal", "query:exact type: touching by an edge",
-                "extreme magnitudes (sums overflow)", "query:extreme query", "integer lattice", "strokes (zero-width / zero-height)", "points", "duplicates", "nested",
+                "extreme magnitudes (sums overflow)", "query:extreme query",
+                "geometric progression (tree hundreds of levels deep)", "integer lattice", "strokes (zero-width / zero-height)", "points", "duplicates", "nested",
                 "shared edges (tiling)", "collinear strokes", "continuous",
                 "query:touching a box by an edge", "query:touching a box by a corner",
                 "query:degenerate query (point)", "query:degenerate query (segment)",
@@ -400,10 +438,13 @@ def run(ctx):
         ctx.need(cls, 100)
     ctx.need("monitor:intersection evaluated (top level)", 20_000)
     ctx.need("monitor:constructions completed", 4_000)
+    ctx.need("history: after calls to other library functions", 150)
     contracts.uninstall_all()
 
 
 def replay(ctx, rec):
+    import sys
+    sys.setrecursionlimit(max(sys.getrecursionlimit(), 6000))
     mon = install(ctx)
     w = rec["witness"]
     boxes = [(b[0], tuple(b[1])) for b in w["boxes"]]
